@@ -25,6 +25,42 @@ def e2eIncrements : Nat → List (Nat × Nat) → List (Nat × Nat)
   | _, [] => []
   | prev, (t, c) :: rest => (t, c - prev) :: e2eIncrements c rest
 
+/-- small-limit transfers: `<limit> KB/s` = limit·1024 bytes/s, i.e. at most ⌈limit·1024/1000⌉ bytes per ms; burst =
+    limit·1024; slack = 400 ms of scheduling between the limiter's grant and the receiver's clock + 2 KiB, and with
+    compression one snappy block (≤ 64 KiB: the limiter paces the WIRE bytes, the decompressor hands a block on only
+    when it is complete) -/
+def e2eSmallRate (kb : Nat) : Nat := (kb * 1024 + 999) / 1000
+def e2eSmallSlack (kb : Nat) (comp : Bool) : Nat := e2eSmallRate kb * 400 + 2048 + (if comp then 65536 else 0)
+
+def e2eSamples (sep1 sep2 : String) (s : String) : Option (List (Nat × Nat)) :=
+  if s = "" then some [] else
+  (s.splitOn sep1).mapM fun e =>
+    match e.splitOn sep2 with
+    | [t, c] => match t.toNat?, c.toNat? with
+      | some t, some c => some (t, c)
+      | _, _ => none
+    | _ => none
+
+/-- one element `side.dir.kb.<enc><comp>.n` against its result `got:eof:equal:samples`: complete, unchanged, end-of-stream, and the
+    receive trace within burst + rate × span -/
+def e2eSmallOk (el res : String) : Option (String × Bool) :=
+  match el.splitOn ".", res.splitOn ":" with
+  | [_, _, kb, ec, n], [got, eof, eq, samples] =>
+    match kb.toNat?, n.toNat?, got.toNat?, e2eSamples "/" "." samples with
+    | some kb, some n, some got, some ss =>
+      let bound := windowsOkFrom (e2eSmallRate kb) (kb * 1024) (e2eSmallSlack kb (ec.endsWith "1")) (e2eIncrements 0 ss)
+      some (s!"{n}:1:1:{samples}", got == n && eof == "1" && eq == "1" && bound)
+    | _, _, _, _ => none
+  | _, _ => none
+
+def e2eSmallAll : List String → List String → Option (List String × Bool)
+  | [], [] => some ([], true)
+  | e :: es, r :: rs => do
+    let (m, ok) ← e2eSmallOk e r
+    let (ms, oks) ← e2eSmallAll es rs
+    pure (m :: ms, ok && oks)
+  | _, _ => none
+
 def e2eStep (st : Unit) (tok : List String) (impl : String) : Unit × Verdict :=
   match tok with
   | ["reset"] => (st, verdictOf "-" impl)
@@ -68,6 +104,22 @@ def e2eStep (st : Unit) (tok : List String) (impl : String) : Unit × Verdict :=
         (st, verdictOf s!"total={n};s={s}" impl (some prop))
       | none => (st, .bad "bw samples")
     | _, _ => (st, verdictOf "total=?;s=?" impl (some false))
+  | "slow" :: rest =>
+    match stkNat rest "n" with
+    | some n =>
+      -- a reader that pauses changes nothing: complete stream, then end-of-stream (C01.tunnel_*_complete)
+      let n := if stkKV rest "dir" == some "up" && n < 17 then 17 else n
+      let prop := stkResNat impl "got" == some n && stkRes impl "eof" == some "1" && stkRes impl "eq" == some "1"
+      (st, verdictOf s!"got={n};eof=1;eq=1" impl (some prop))
+    | none => (st, .bad "slow")
+  | "sbw" :: rest =>
+    match stkKV rest "q" with
+    | some q =>
+      let els := q.splitOn ","
+      match (stkRes impl "r").bind (fun r => e2eSmallAll els (r.splitOn "|")) with
+      | some (ms, ok) => (st, verdictOf s!"r={"|".intercalate ms}" impl (some ok))
+      | none => (st, verdictOf "r=?" impl (some false))
+    | none => (st, .bad "sbw")
   | _ => (st, .bad "unknown op")
 
 def e2e : Engine := { State := Unit, init := (), step := e2eStep }
